@@ -9,6 +9,9 @@ mod session_state;
 
 #[cfg(test)]
 mod tests;
+#[cfg(feature = "verif")]
+#[path = "verif_server.rs"]
+mod verif;
 
 use self::active_stream::{ActiveStream, StreamState};
 use self::outstanding_requests::OutstandingRequest;
@@ -19,7 +22,10 @@ use messages::{PeerBandwidthLimitType, RtmpMessage, UserControlEventType};
 use rml_amf0::Amf0Value;
 use sessions::StreamMetadata;
 use std::collections::HashMap;
+#[cfg(not(feature = "verif"))]
 use std::time::SystemTime;
+#[cfg(feature = "verif")]
+use verif_hooks::SystemTime;
 use time::RtmpTimestamp;
 
 pub use self::config::ServerSessionConfig;
@@ -45,6 +51,7 @@ pub use self::result::ServerSessionResult;
 /// no additional bytes are sent to the client.  Any violation of these rules have a high
 /// high probability of causing RTMP chunk parsing errors by the peer or by the `ServerSession`
 /// instance itself.
+#[cfg_attr(feature = "verif", derive(Clone))]
 pub struct ServerSession {
     start_time: SystemTime,
     serializer: ChunkSerializer,
